@@ -689,23 +689,163 @@ func c20R2(c *eng.Ctx, reg *c20Reg) {
 }
 
 // c20Compare is a boolean SSA value of fn that tells whether obj and old agree on the spec
-// or on the annotations: a DeepEqual call, or a same-package helper returning one (possibly
-// negated).
+// or on the annotations: a DeepEqual call (kind set), or the call of a same-package predicate
+// that holds such comparisons (h, inner) — whatever its shape: one negated comparison, `a || b`,
+// two sequential returns. What the predicate returns for given outcomes of its comparisons is
+// computed by the fact-carrying search over its body (value).
 type c20Compare struct {
 	val        *ssa.Call
-	kind       string // "spec" | "annotations"
-	equalMeans bool   // truth value of val when the two sides are equal
+	kind       string // "spec" | "annotations"; "" for a predicate call
+	equalMeans bool   // direct comparison: truth value of val when the two sides are equal
+	h          *ssa.Function
+	inner      []c20Compare
 }
 
-func c20FindCompares(c *eng.Ctx, fn *ssa.Function, probe *c20Probe, obj, old c20PS, depth int) []c20Compare {
-	var out []c20Compare
-	sl := c.Slicer().WithArgs()
-	fromAnnotations := func(v ssa.Value) bool {
-		return sl.DerivesFrom(v, func(x ssa.Value) bool {
-			call, _ := eng.CallResultOf(x)
-			return call != nil && eng.MethodNameIs(call, "GetAnnotations")
-		})
+// kinds returns the kinds of comparison val stands for.
+func (k c20Compare) kinds() map[string]bool {
+	out := map[string]bool{}
+	if k.kind != "" {
+		out[k.kind] = true
 	}
+	for _, in := range k.inner {
+		for n := range in.kinds() {
+			out[n] = true
+		}
+	}
+	return out
+}
+
+// assume adds to facts what is known about k.val when every comparison for which outcome
+// answers (equal, true) reports that outcome. For a predicate the value is the unique truth
+// value of all returns that are feasible under the facts of its inner comparisons.
+func (k c20Compare) assume(facts eng.BoolFacts, outcome func(c20Compare) (equal, known bool)) {
+	if k.h == nil {
+		if eq, ok := outcome(k); ok {
+			facts[k.val] = eq == k.equalMeans
+		}
+		return
+	}
+	inner := eng.BoolFacts{}
+	for _, in := range k.inner {
+		in.assume(inner, outcome)
+	}
+	if len(inner) == 0 {
+		return
+	}
+	vals := map[bool]bool{}
+	unknown := false
+	eng.FactReachFromEntry(k.h, eng.FactQuery{Assume: inner, Target: func(i ssa.Instruction, known eng.KnownFn) bool {
+		if r, ok := i.(*ssa.Return); ok && len(r.Results) == 1 && r.Block() != k.h.Recover {
+			if v, ok := known(r.Results[0]); ok {
+				vals[v] = true
+			} else {
+				unknown = true
+			}
+		}
+		return false
+	}})
+	if !unknown && len(vals) == 1 {
+		for v := range vals {
+			facts[k.val] = v
+		}
+	}
+}
+
+// consults reports whether evaluating k.val evaluates a comparison of the kind on every path
+// (under the facts "everything compares equal").
+func (k c20Compare) consults(kind string, allEqual func(c20Compare) (bool, bool)) bool {
+	if k.h == nil {
+		return k.kind == kind
+	}
+	inner := eng.BoolFacts{}
+	for _, in := range k.inner {
+		in.assume(inner, allEqual)
+	}
+	these := map[ssa.Instruction]bool{}
+	for _, in := range k.inner {
+		if in.consults(kind, allEqual) {
+			these[in.val] = true
+		}
+	}
+	if len(these) == 0 {
+		return false
+	}
+	return eng.FactReachFromEntry(k.h, eng.FactQuery{Assume: inner,
+		Target: func(i ssa.Instruction, _ eng.KnownFn) bool { return eng.IsExit(i) },
+		Avoid:  func(i ssa.Instruction) bool { return these[i] }}) == nil
+}
+
+// c20Origins answers, for a value of one function, what the rule needs to know about where it
+// comes from. Inside a predicate helper the answers about a parameter are those of the caller
+// about the argument bound to it, so it does not matter on which side of a call a value is
+// computed (`specChanged(obj, old)` vs `changed(specNew, specOld)` vs `differ(a.GetAnnotations(), …)`).
+type c20Origins struct {
+	side  func(v ssa.Value) c20PS    // which of the method's object parameters (obj / old) v is computed from
+	names func(v ssa.Value) []string // FieldByName constants v is computed from
+	annot func(v ssa.Value) bool     // v is computed from a GetAnnotations() call
+}
+
+func c20RootOrigins(c *eng.Ctx, fn *ssa.Function) c20Origins {
+	sl := c.Slicer().WithArgs()
+	return c20Origins{
+		side:  func(v ssa.Value) c20PS { return c20Params(c, fn, v) },
+		names: func(v ssa.Value) []string { return c20FieldNames(c, v) },
+		annot: func(v ssa.Value) bool {
+			return sl.DerivesFrom(v, func(x ssa.Value) bool {
+				call, _ := eng.CallResultOf(x)
+				return call != nil && eng.MethodNameIs(call, "GetAnnotations")
+			})
+		},
+	}
+}
+
+// in returns the origins of the values of helper h as called by call (a call of the function
+// o answers for).
+func (o c20Origins) in(c *eng.Ctx, h *ssa.Function, call *ssa.Call) c20Origins {
+	own := c20RootOrigins(c, h)
+	args := call.Call.Args
+	each := func(v ssa.Value, f func(arg ssa.Value)) {
+		hp := c20Params(c, h, v)
+		for i := range h.Params {
+			if hp.has(i) && i < len(args) {
+				f(args[i])
+			}
+		}
+	}
+	return c20Origins{
+		side: func(v ssa.Value) c20PS {
+			var out c20PS
+			each(v, func(a ssa.Value) { out |= o.side(a) })
+			return out
+		},
+		names: func(v ssa.Value) []string {
+			set := map[string]bool{}
+			for _, n := range own.names(v) {
+				set[n] = true
+			}
+			each(v, func(a ssa.Value) {
+				for _, n := range o.names(a) {
+					set[n] = true
+				}
+			})
+			var out []string
+			for n := range set {
+				out = append(out, n)
+			}
+			sort.Strings(out)
+			return out
+		},
+		annot: func(v ssa.Value) bool {
+			r := own.annot(v)
+			each(v, func(a ssa.Value) { r = r || o.annot(a) })
+			return r
+		},
+	}
+}
+
+// c20FindCompares lists the comparisons of fn; org answers the origin questions for fn's values.
+func c20FindCompares(c *eng.Ctx, fn *ssa.Function, probe *c20Probe, org c20Origins, obj, old c20PS, depth int) []c20Compare {
+	var out []c20Compare
 	for _, ci := range eng.Calls(fn) {
 		call, ok := ci.(*ssa.Call)
 		if !ok {
@@ -720,14 +860,14 @@ func c20FindCompares(c *eng.Ctx, fn *ssa.Function, probe *c20Probe, obj, old c20
 			if len(a) != 2 {
 				continue
 			}
-			p0, p1 := c20Params(c, fn, a[0]), c20Params(c, fn, a[1])
+			p0, p1 := org.side(a[0]), org.side(a[1])
 			sides := (p0 == obj && p1 == old) || (p0 == old && p1 == obj)
-			n0, n1 := c20FieldNames(c, a[0]), c20FieldNames(c, a[1])
+			n0, n1 := org.names(a[0]), org.names(a[1])
 			switch {
 			case sides && len(n0) == 1 && len(n1) == 1 && n0[0] == probe.specName && n1[0] == probe.specName:
-				out = append(out, c20Compare{call, "spec", true})
-			case sides && len(n0) == 0 && len(n1) == 0 && fromAnnotations(a[0]) && fromAnnotations(a[1]):
-				out = append(out, c20Compare{call, "annotations", true})
+				out = append(out, c20Compare{val: call, kind: "spec", equalMeans: true})
+			case sides && len(n0) == 0 && len(n1) == 0 && org.annot(a[0]) && org.annot(a[1]):
+				out = append(out, c20Compare{val: call, kind: "annotations", equalMeans: true})
 			}
 			continue
 		}
@@ -735,38 +875,9 @@ func c20FindCompares(c *eng.Ctx, fn *ssa.Function, probe *c20Probe, obj, old c20
 		if h == nil || h == fn || h.Blocks == nil || depth <= 0 || h.Pkg != fn.Pkg {
 			continue
 		}
-		// helper: single return of a (possibly negated) comparison of two of its parameters
-		var rets []*ssa.Return
-		eng.Instrs(h, func(i ssa.Instruction) {
-			if r, ok := i.(*ssa.Return); ok {
-				rets = append(rets, r)
-			}
-		})
-		if len(rets) != 1 || len(rets[0].Results) != 1 {
-			continue
-		}
-		rv, neg := rets[0].Results[0], false
-		for {
-			u, ok := rv.(*ssa.UnOp)
-			if !ok || u.Op != token.NOT {
-				break
-			}
-			rv, neg = u.X, !neg
-		}
-		for hi := range h.Params {
-			for hj := range h.Params {
-				if hi == hj || hi >= len(call.Call.Args) || hj >= len(call.Call.Args) {
-					continue
-				}
-				if c20Params(c, fn, call.Call.Args[hi]) != obj || c20Params(c, fn, call.Call.Args[hj]) != old {
-					continue
-				}
-				for _, hc := range c20FindCompares(c, h, probe, c20One(hi), c20One(hj), depth-1) {
-					if ssa.Value(hc.val) == rv {
-						out = append(out, c20Compare{call, hc.kind, hc.equalMeans != neg})
-					}
-				}
-			}
+		// predicate helper: its comparisons, with the helper's parameters traced to the caller's arguments
+		if inner := c20FindCompares(c, h, probe, org.in(c, h, call), obj, old, depth-1); len(inner) > 0 {
+			out = append(out, c20Compare{val: call, h: h, inner: inner})
 		}
 	}
 	return out
@@ -782,37 +893,65 @@ func c20Bump(c *eng.Ctx, fn *ssa.Function, probe *c20Probe, mainT string, es []c
 	}
 	c.Check("R2", fn, "bump: SetGeneration(old.GetGeneration()+1) on obj", fn.Pos(), len(bumps) > 0,
 		"the new generation is the stored object's generation plus one, written to the submitted object")
-	cmps := c20FindCompares(c, fn, probe, obj, old, c.Depth)
-	byKind := map[string][]c20Compare{}
+	cmps := c20FindCompares(c, fn, probe, c20RootOrigins(c, fn), obj, old, c.Depth)
+	has := map[string]bool{}
 	for _, k := range cmps {
-		byKind[k.kind] = append(byKind[k.kind], k)
+		for n := range k.kinds() {
+			has[n] = true
+		}
 	}
-	c.Check("R2", fn, "bump: comparison of obj.Spec with old.Spec", fn.Pos(), len(byKind["spec"]) > 0,
+	c.Check("R2", fn, "bump: comparison of obj.Spec with old.Spec", fn.Pos(), has["spec"],
 		"a DeepEqual whose operands are the spec field of obj and of old (one each)")
-	c.Check("R2", fn, "bump: comparison of obj annotations with old annotations", fn.Pos(), len(byKind["annotations"]) > 0,
+	c.Check("R2", fn, "bump: comparison of obj annotations with old annotations", fn.Pos(), has["annotations"],
 		"a DeepEqual whose operands are GetAnnotations() of obj's and of old's accessor (one each)")
-	if len(bumps) == 0 || len(byKind["spec"]) == 0 || len(byKind["annotations"]) == 0 {
+	if len(bumps) == 0 || !has["spec"] || !has["annotations"] {
 		return
 	}
 	base := func() eng.BoolFacts { return c20Assume(fn, probe, mainT, [3]int{1, 1, 1}, -1) }
 	isBumpIns := func(i ssa.Instruction) bool { return bumps[i] }
+	allEqual := func(c20Compare) (bool, bool) { return true, true }
 
 	// (a) equal spec and equal annotations: no bump
 	eq := base()
 	for _, k := range cmps {
-		eq[k.val] = k.equalMeans
+		k.assume(eq, allEqual)
 	}
 	x := eng.FactReachFromEntry(fn, eng.FactQuery{Assume: eq, Target: func(i ssa.Instruction, _ eng.KnownFn) bool { return bumps[i] }})
 	c.Check("R2", fn, "bump: not when spec and annotations are equal", fn.Pos(), x == nil,
 		"with both comparisons reporting equality no path may reach SetGeneration (the generation must stay the same on a no-op update)")
-	// (b) a difference in either forces the bump
+	// (b) a difference in either forces the bump: each comparison of the kind in turn reports a
+	// difference (nothing is assumed about the others)
+	var leaves func(ks []c20Compare, kind string) []c20Compare
+	leaves = func(ks []c20Compare, kind string) []c20Compare {
+		var out []c20Compare
+		for _, k := range ks {
+			if k.h == nil && k.kind == kind {
+				out = append(out, k)
+			}
+			out = append(out, leaves(k.inner, kind)...)
+		}
+		return out
+	}
 	for _, kind := range []string{"spec", "annotations"} {
 		ok := true
-		for _, k := range byKind[kind] {
-			f := base()
-			f[k.val] = !k.equalMeans
-			if eng.FactReachAfter(k.val, eng.FactQuery{Assume: f, Target: func(i ssa.Instruction, _ eng.KnownFn) bool { return eng.IsExit(i) }, Avoid: isBumpIns}) != nil {
-				ok = false
+		for _, leaf := range leaves(cmps, kind) {
+			differs := func(k c20Compare) (bool, bool) { return false, k.val == leaf.val }
+			for _, k := range cmps {
+				if !k.kinds()[kind] {
+					continue
+				}
+				f := base()
+				n := len(f)
+				k.assume(f, differs)
+				if len(f) == n {
+					if k.h != nil && len(leaves([]c20Compare{k}, kind)) > 0 && containsCompare(k, leaf) {
+						ok = false // the predicate's answer to a difference is not determined
+					}
+					continue
+				}
+				if eng.FactReachAfter(k.val, eng.FactQuery{Assume: f, Target: func(i ssa.Instruction, _ eng.KnownFn) bool { return eng.IsExit(i) }, Avoid: isBumpIns}) != nil {
+					ok = false
+				}
 			}
 		}
 		c.Check("R2", fn, "bump: whenever the "+kind+" differ", fn.Pos(), ok,
@@ -821,8 +960,10 @@ func c20Bump(c *eng.Ctx, fn *ssa.Function, probe *c20Probe, mainT string, es []c
 	// (c) both comparisons are consulted before the method decides not to bump
 	for _, kind := range []string{"spec", "annotations"} {
 		these := map[ssa.Instruction]bool{}
-		for _, k := range byKind[kind] {
-			these[k.val] = true
+		for _, k := range cmps {
+			if k.consults(kind, allEqual) {
+				these[k.val] = true
+			}
 		}
 		x := eng.FactReachFromEntry(fn, eng.FactQuery{Assume: eq,
 			Target: func(i ssa.Instruction, _ eng.KnownFn) bool { return eng.IsExit(i) },
@@ -830,6 +971,19 @@ func c20Bump(c *eng.Ctx, fn *ssa.Function, probe *c20Probe, mainT string, es []c
 		c.Check("R2", fn, "bump: "+kind+" consulted on every no-bump path", fn.Pos(), x == nil,
 			"assuming meta, spec and status exist, a path that ends without a bump must have evaluated the "+kind+" comparison")
 	}
+}
+
+// containsCompare reports whether leaf is k or one of the comparisons inside predicate k.
+func containsCompare(k, leaf c20Compare) bool {
+	if k.val == leaf.val {
+		return true
+	}
+	for _, in := range k.inner {
+		if containsCompare(in, leaf) {
+			return true
+		}
+	}
+	return false
 }
 
 // ---------------------------------------------------------------------------------------
@@ -1231,14 +1385,14 @@ func c20R3(c *eng.Ctx) *c20Reg {
 		for _, ci := range eng.CallsTo(fn, provName) {
 			nprov++
 			a := eng.Args(ci)
-			ok := len(a) == 3 && sl.DerivesFrom(a[2], func(v ssa.Value) bool {
+			ok := len(a) == 3 && c20DerivesThroughAppend(sl, a[2], func(v ssa.Value) bool {
 				call, idx := eng.CallResultOf(v)
 				if call == nil || idx != 0 {
 					return false
 				}
 				upTo := -1 // the levels that must hand the options on
 				switch {
-				case call.Call.StaticCallee() == ub && !provIn[ub]:
+				case c20MayCall(c, sl, call, ub) && !provIn[ub]:
 					upTo = len(levels) - 1
 				default:
 					for li := 1; li < len(levels); li++ {
@@ -1378,29 +1532,59 @@ func c20ResourceREST(c *eng.Ctx, reg *c20Reg) {
 		return o != nil && root == ssa.Value(o) && len(path) == 1 && path[0] == field
 	}
 
-	// value stored under "status": &T{Store: &statusStore}; statusStore = *mainStore; statusStore.UpdateStrategy = StatusStrategy{…}
-	var statusStore, mainStore ssa.Value
-	if mi, ok := mu.Value.(*ssa.MakeInterface); ok {
-		if al, ok := mi.X.(*ssa.Alloc); ok {
-			for _, ref := range *al.Referrers() {
-				if fa, ok := ref.(*ssa.FieldAddr); ok {
-					for _, rr := range *fa.Referrers() {
-						if st, ok := rr.(*ssa.Store); ok && st.Addr == ssa.Value(fa) && eng.TypeName(st.Val.Type()) == c20Store {
-							statusStore = st.Val
-						}
+	// value stored under "status": &T{Store: &statusStore}; statusStore = *mainStore;
+	// statusStore.UpdateStrategy = StatusStrategy{…}. The endpoint (and the main store) may be
+	// built in place or by same-package constructor helpers: composites are resolved through
+	// the helpers' returns in the context of the call (c20Composites), their operands back to
+	// the values of fn (c20PathIn).
+	root := &eng.CallCtx{Fn: fn}
+	fromOIn := func(v ssa.Value, ctx *eng.CallCtx, field string) bool {
+		r, path := c20PathIn(v, ctx)
+		return o != nil && r.V == ssa.Value(o) && len(path) == 1 && path[0] == field
+	}
+	// setBefore: the store st has happened on every path on which the composite it belongs to
+	// exists where it is used: before the route is installed when it sits in fn, before every
+	// return of the constructor helper otherwise
+	setBefore := func(st *ssa.Store) bool {
+		is := func(i ssa.Instruction) bool { return i == ssa.Instruction(st) }
+		if st.Parent() == fn {
+			return eng.AlwaysBefore(fn, mu, is)
+		}
+		return eng.ReachFromEntry(st.Parent(), eng.PathQuery{Target: func(i ssa.Instruction) bool {
+			_, isRet := i.(*ssa.Return)
+			return isRet
+		}, Avoid: is}) == nil
+	}
+	var statusStores []eng.CtxValue
+	for _, comp := range c20Composites(mu.Value, root, eng.LiftDepth) {
+		al, ok := comp.V.(*ssa.Alloc)
+		if !ok {
+			continue
+		}
+		for _, ref := range *al.Referrers() {
+			if fa, ok := ref.(*ssa.FieldAddr); ok {
+				for _, rr := range *fa.Referrers() {
+					if st, ok := rr.(*ssa.Store); ok && st.Addr == ssa.Value(fa) && eng.TypeName(st.Val.Type()) == c20Store {
+						statusStores = append(statusStores, c20Composites(st.Val, comp.Ctx, eng.LiftDepth)...)
 					}
 				}
 			}
 		}
 	}
+	var mainStore *eng.CtxValue
 	ok, detail := false, "the value registered under \"status\" does not wrap a store of its own"
-	if al, isAl := statusStore.(*ssa.Alloc); isAl {
+	for _, ss := range statusStores {
+		al, isAl := ss.V.(*ssa.Alloc)
+		if !isAl {
+			continue
+		}
 		detail = "the status store does not get a strategy of its own: it shares the main strategy, so a status update may change spec and labels (and resets the status)"
 		for _, ref := range *al.Referrers() {
 			switch u := ref.(type) {
 			case *ssa.Store:
 				if ld, isLd := u.Val.(*ssa.UnOp); isLd && u.Addr == ssa.Value(al) && ld.Op == token.MUL {
-					mainStore = ld.X
+					m := eng.ResolveIn(ld.X, ss.Ctx)
+					mainStore = &m
 				}
 			case *ssa.FieldAddr:
 				if !eng.FieldAddrOf(u, c20Store, "UpdateStrategy") {
@@ -1412,7 +1596,7 @@ func c20ResourceREST(c *eng.Ctx, reg *c20Reg) {
 						continue
 					}
 					if mi, isMI := st.Val.(*ssa.MakeInterface); isMI {
-						if named, isN := mi.X.Type().(*types.Named); isN && eng.AlwaysBefore(fn, mu, func(i ssa.Instruction) bool { return i == ssa.Instruction(st) }) {
+						if named, isN := mi.X.Type().(*types.Named); isN && setBefore(st) {
 							reg.statusT = named
 						}
 					}
@@ -1434,9 +1618,12 @@ func c20ResourceREST(c *eng.Ctx, reg *c20Reg) {
 	for _, f := range []string{"CreateStrategy", "UpdateStrategy"} {
 		good := false
 		if mainStore != nil {
-			for _, st := range eng.StoresToField([]*ssa.Function{fn}, c20Store, f) {
-				if fa, _ := st.Addr.(*ssa.FieldAddr); fa != nil && fa.X == mainStore {
-					good = fromO(st.Val, "RESTStrategy")
+			for _, comp := range c20Composites(mainStore.V, mainStore.Ctx, eng.LiftDepth) {
+				base := comp.V
+				for _, st := range eng.StoresToField([]*ssa.Function{c20CtxFn(comp.Ctx, fn)}, c20Store, f) {
+					if fa, _ := st.Addr.(*ssa.FieldAddr); fa != nil && fa.X == base {
+						good = fromOIn(st.Val, comp.Ctx, "RESTStrategy")
+					}
 				}
 			}
 		}
@@ -1486,4 +1673,110 @@ func c20ResourceREST(c *eng.Ctx, reg *c20Reg) {
 			}
 		}
 	}
+}
+
+// c20CtxFn returns the function of a context (def for the nil context).
+func c20CtxFn(ctx *eng.CallCtx, def *ssa.Function) *ssa.Function {
+	if ctx == nil {
+		return def
+	}
+	return ctx.Fn
+}
+
+// c20Composites resolves v (a value of ctx.Fn) to the values it is built from: itself after
+// eng.ResolveIn, or — when that is the result of a same-package constructor helper — what the
+// helper's returns yield, in the context of that call (recursively, depth bounded).
+func c20Composites(v ssa.Value, ctx *eng.CallCtx, depth int) []eng.CtxValue {
+	cv := eng.ResolveIn(v, ctx)
+	call, idx := eng.CallResultOf(cv.V)
+	if call == nil || depth <= 0 || cv.Ctx == nil {
+		return []eng.CtxValue{cv}
+	}
+	h := call.Call.StaticCallee()
+	if h == nil || !eng.Analysable(h) || h.Pkg != cv.Ctx.Fn.Pkg {
+		return []eng.CtxValue{cv}
+	}
+	if idx < 0 {
+		idx = 0
+	}
+	child := cv.Ctx.Child(call, h)
+	var out []eng.CtxValue
+	eng.Instrs(h, func(ins ssa.Instruction) {
+		if r, ok := ins.(*ssa.Return); ok && idx < len(r.Results) && r.Block() != h.Recover {
+			out = append(out, c20Composites(r.Results[idx], child, depth-1)...)
+		}
+	})
+	if len(out) == 0 {
+		return []eng.CtxValue{cv}
+	}
+	return out
+}
+
+// c20PathIn is eng.AccessPath across a context chain: the access path of v is continued
+// through helper parameters into the arguments of the context's call sites.
+func c20PathIn(v ssa.Value, ctx *eng.CallCtx) (eng.CtxValue, []string) {
+	var suffix []string
+	cv := eng.ResolveIn(v, ctx)
+	for i := 0; i < 8; i++ {
+		root, path := eng.AccessPath(cv.V)
+		suffix = append(append([]string{}, path...), suffix...)
+		next := eng.ResolveIn(root, cv.Ctx)
+		if next.V == root && len(path) == 0 {
+			return next, suffix
+		}
+		if next.V == root {
+			return eng.CtxValue{V: root, Ctx: cv.Ctx}, suffix
+		}
+		cv = next
+	}
+	return cv, suffix
+}
+
+// c20MayCall reports whether call may invoke target: statically, or — for a call of a function
+// value (`builders[i](factory)`, a table of option builders) — when the value's origins are
+// all known functions and target is one of them.
+func c20MayCall(c *eng.Ctx, sl *eng.Slicer, call *ssa.Call, target *ssa.Function) bool {
+	if f := call.Call.StaticCallee(); f != nil {
+		return f == target
+	}
+	if call.Call.IsInvoke() {
+		return false
+	}
+	found := false
+	for _, l := range sl.Leaves(call.Call.Value, nil) {
+		f := c.W.FuncOfValue(l)
+		if f == nil {
+			return false // an origin that is not a known function: the callee set is open
+		}
+		found = found || f == target
+	}
+	return found
+}
+
+// c20DerivesThroughAppend is Slicer.DerivesFrom that additionally looks through the builtin
+// append (a slice built element by element in a loop): the operands of an append are origins
+// of its result.
+func c20DerivesThroughAppend(sl *eng.Slicer, v ssa.Value, pred func(ssa.Value) bool) bool {
+	seen := map[ssa.Value]bool{}
+	var rec func(v ssa.Value) bool
+	rec = func(v ssa.Value) bool {
+		if seen[v] {
+			return false
+		}
+		seen[v] = true
+		if sl.DerivesFrom(v, pred) {
+			return true
+		}
+		for _, l := range sl.Leaves(v, nil) {
+			if call, ok := l.(*ssa.Call); ok && c20IsBuiltin(call, "append") {
+				for _, a := range call.Call.Args {
+					if rec(a) {
+						return true
+					}
+				}
+			}
+		}
+		return false
+	}
+	return rec(v)
 }
